@@ -18,7 +18,7 @@ from lib.core import Job, fl
 ASSUMPTIONS = [
     "floats are modelled as exact reals (rounding outside the claim)",
     "Plane: an object is only added when it is not live and only removed when it is live (set-like use, as in layout.py)",
-    "Plane: boxes and queries have x0<x1, y0<y1; expected hits are those whose box, the query and the index bounds pairwise properly overlap "
+    "Plane: boxes and queries have x0<x1, y0<y1 (one family also has zero-width boxes and queries; 'properly overlap' is then the same strict inequalities); expected hits are those whose box, the query and the index bounds pairwise properly overlap "
     "(objects or queries wholly outside the index bounds are never reported by design - not claimed either way)",
 ]
 OUTSIDE = ["more than 3 boxes / 5 operations per history", "grid sizes other than those listed in bounds", "IEEE rounding"]
@@ -112,20 +112,22 @@ def _overlap(a, b):
     return SB(z3.And(symx.zr(a[0]) < symx.zr(b[2]), symx.zr(b[0]) < symx.zr(a[2]), symx.zr(a[1]) < symx.zr(b[3]), symx.zr(b[1]) < symx.zr(a[3])))
 
 
-def h3_plane(config="pos", nbox=2, seqs=(), timeout=120, oned=False, part=None, **kw):
+def h3_plane(config="pos", nbox=2, seqs=(), timeout=120, oned=False, part=None, degenerate=False, **kw):
     """seqs: list of concrete operation sequences, e.g. [["a0","a1","r0","f"]] (a=add i, r=remove i, f=find, i=iterate);
     the box and query coordinates are symbolic."""
     u = _utils()
     bbox, grid, (LO, HI) = CONFIGS[config]
 
     def fresh_box(ex, tag):
-        x0, x1 = ex.real(tag + "x0", LO, HI), ex.real(tag + "x1", LO, HI)
+        x0 = ex.real(tag + "x0", LO, HI)
+        x1 = x0 if (degenerate and ex.choice(2, tag + "flat") == 1) else ex.real(tag + "x1", LO, HI)      # zero-width boxes (hairlines, empty glyphs)
         if oned:     # one-dimensional family: y extent fixed inside the bounds (halves the number of symbolic cell ranges)
             y0, y1 = bbox[1] + 1, bbox[1] + 3
         else:
             y0, y1 = ex.real(tag + "y0", LO, HI), ex.real(tag + "y1", LO, HI)
             ex.assume(y0 < y1)
-        ex.assume(x0 < x1)
+        if x1 is not x0:
+            ex.assume(x0 < x1)
         return (x0, y0, x1, y1)
 
     def make(seq):
@@ -172,7 +174,7 @@ def h3_plane(config="pos", nbox=2, seqs=(), timeout=120, oned=False, part=None, 
         vals = {}
         for d in m.decls():
             vals[str(d)] = mval(m, m[d])
-        return {"config": config, "nbox": nbox, "oned": oned, "log": info.get("log"), "vals": vals}
+        return {"config": config, "nbox": nbox, "oned": oned, "log": info.get("log"), "vals": vals}      # a flat box has no x1 symbol: replay uses x0
 
     parts = []
     import time
@@ -181,7 +183,7 @@ def h3_plane(config="pos", nbox=2, seqs=(), timeout=120, oned=False, part=None, 
         left = max(5.0, (t_end - time.time()) / (len(seqs) - k))
         r = core.run_symx("H3_plane", make(seq), [u.Plane.add, u.Plane.remove, u.Plane.find, u.Plane._getrange, u.Plane.__iter__, u.drange],
                           {"config": config, "bbox": bbox, "gridsize": grid, "boxes": nbox, "sequences": len(seqs), "operations": max(map(len, seqs)),
-                           "coords": "%d <= v <= %d" % (LO, HI), "family": "x only symbolic" if oned else "x and y symbolic"},
+                           "coords": "%d <= v <= %d" % (LO, HI), "family": ("x only symbolic" if oned else "x and y symbolic") + (", zero-width boxes allowed" if degenerate else "")},
                           left, concretize=conc, int_lo=-8, int_hi=8, part=part,
                           shims={"namespace_shims": ["utils.int -> sym_int", "utils.range -> sym_range"]})
         r["extra"]["sequence"] = seq
@@ -245,8 +247,8 @@ def replay(harness, inp):
 
         def box(tag):
             if inp.get("oned"):
-                return (fl(F(v[tag + "x0"])), bbox[1] + 1, fl(F(v[tag + "x1"])), bbox[1] + 3)
-            return tuple(fl(F(v[tag + k])) for k in ("x0", "y0", "x1", "y1"))
+                return (fl(F(v[tag + "x0"])), bbox[1] + 1, fl(F(v.get(tag + "x1", v[tag + "x0"]))), bbox[1] + 3)
+            return tuple(fl(F(v.get(tag + k, v[tag + "x0"]))) for k in ("x0", "y0", "x1", "y1"))
         plane = u.Plane(bbox, gridsize=grid)
         boxes = [Box("o%d" % i, box("o%d" % i)) for i in range(inp["nbox"])]
         live = []
@@ -293,6 +295,8 @@ def jobs(tier):
             J.append(Job("H3_plane:%s:1d:1box:2ops" % c, "h3_plane", {"config": c, "nbox": 1, "seqs": [["a0", "f"]], "oned": True}, 100))
         for k in range(6):
             J.append(Job("H3_plane:neg:2d:1box:2ops:%d" % k, "h3_plane", {"config": "neg", "nbox": 1, "seqs": [["a0", "f"]], "part": [k, 6, 9]}, 150))
+        for c in ("pos", "neg"):
+            J.append(Job("H3_plane:%s:1d:flat:2ops" % c, "h3_plane", {"config": c, "nbox": 1, "seqs": [["a0", "f"]], "oned": True, "degenerate": True}, 150))
     else:
         s4 = op_sequences(2, 4)
         for c in ("pos", "neg", "off", "tiny"):
